@@ -224,6 +224,8 @@ def fold(t: ast.AST) -> Optional[bool]:
                 return isinstance(v, table[ty]) and not (ty == "int" and isinstance(v, bool))
         if t.func.id == "callable" and len(t.args) == 1 and isinstance(t.args[0], ast.Constant):
             return False
+        if t.func.id == "bool" and len(t.args) == 1 and not t.keywords:
+            return fold(t.args[0])
     if isinstance(t, (ast.Tuple, ast.List)):
         return bool(t.elts)
     return None
